@@ -528,6 +528,71 @@ def r5_nondeterminism(ctx):
   ctx.sample(R, {'functions_in_api_call_tree': len(chains), 'seeded_generators': seen})
 
 
+def shared_mutable_class_attrs(ctx):
+  """(class, attribute, defining node, mutating node) for every mutable object
+  created in a class body (one object for all instances) that a method mutates
+  through `self.<attr>` without `__init__` rebinding the attribute first."""
+  out = []
+  MUT = effects.MUTATORS
+  for m in ctx.repo.modules.values():
+    for ci in m.classes.values():
+      if getattr(ci, 'is_enum', False):
+        continue
+      cand = {}
+      for st in ci.node.body:
+        tgt = val = None
+        if isinstance(st, ast.Assign) and len(st.targets) == 1 and isinstance(st.targets[0], ast.Name):
+          tgt, val = st.targets[0].id, st.value
+        elif isinstance(st, ast.AnnAssign) and isinstance(st.target, ast.Name) and st.value is not None:
+          tgt, val = st.target.id, st.value
+        if tgt is None:
+          continue
+        mutable = isinstance(val, (ast.List, ast.Dict, ast.Set, ast.ListComp, ast.DictComp, ast.SetComp)) or (
+            isinstance(val, ast.Call) and common.call_name(val) in ('list', 'dict', 'set', 'bytearray', 'collections.OrderedDict', 'collections.defaultdict', 'collections.deque', 'collections.Counter'))
+        if mutable:
+          cand[tgt] = st
+      if not cand:
+        continue
+      init = ci.methods.get('__init__')
+      rebound = set()
+      if init is not None:
+        for n in common.walk_no_nested(init.node):
+          if isinstance(n, (ast.Assign, ast.AnnAssign)):
+            for t in (n.targets if isinstance(n, ast.Assign) else [n.target]):
+              if isinstance(t, ast.Attribute) and isinstance(t.value, ast.Name) and t.value.id == 'self':
+                rebound.add(t.attr)
+      for name, meth in ci.methods.items():
+        for n in common.walk_no_nested(meth.node):
+          hit = None
+          if isinstance(n, ast.Call) and isinstance(n.func, ast.Attribute) and n.func.attr in MUT and isinstance(n.func.value, ast.Attribute) \
+              and isinstance(n.func.value.value, ast.Name) and n.func.value.value.id in ('self', 'cls') and n.func.value.attr in cand:
+            hit = n.func.value.attr
+          elif isinstance(n, (ast.Assign, ast.AugAssign, ast.Delete)):
+            tgts = n.targets if isinstance(n, (ast.Assign, ast.Delete)) else [n.target]
+            for t in tgts:
+              base = t.value if isinstance(t, ast.Subscript) else (t if isinstance(n, ast.AugAssign) else None)
+              if isinstance(base, ast.Attribute) and isinstance(base.value, ast.Name) and base.value.id in ('self', 'cls') and base.attr in cand:
+                hit = base.attr
+          if hit is not None and hit not in rebound:
+            out.append((ci, hit, cand[hit], n, meth))
+  return out
+
+
+def r7_no_shared_class_objects(ctx, R='C14.R7'):
+  ctx.rule(R, 'no mutable object created in a class body is mutated through instances (it would be shared by every object of the class, across calls and models)', floor=10)
+  hits = shared_mutable_class_attrs(ctx)
+  n = 0
+  for m in ctx.repo.modules.values():
+    for ci in m.classes.values():
+      ctx.instance(R)
+      n += 1
+  for ci, attr, dnode, mnode, meth in hits:
+    ctx.check(R, False, mnode, meth, f'{ci.name}.{attr}',
+              f'`{attr}` is created once in the body of class {ci.name} and {meth.name}() mutates it through an instance: all {ci.name} objects share it, so a later call sees what an earlier one left there')
+  if not hits:
+    ctx.check(R, True, None, None, f'{n} classes', '')
+
+
 def run(ctx):
   ctx.assume('external library calls do not mutate their arguments and return fresh objects (modelled exceptions: shallow copies, numpy views, flatbuffer parser views, container mutators)')
   ctx.assume('user-supplied callables (qsv_update_func, compare_fn) are out of scope')
@@ -536,5 +601,6 @@ def run(ctx):
   r3_no_ambient_state(ctx)
   r4_set_iteration(ctx)
   r5_nondeterminism(ctx)
+  r7_no_shared_class_objects(ctx)
   from sa.rules import shared  # pylint: disable=g-import-not-at-top
   shared.rule_single_traversal(ctx, 'C14.R6', ['quantizer:Quantizer.calibrate', 'quantizer:Quantizer.validate', 'model_validator:compare_model', 'calibrator:Calibrator.calibrate'])
